@@ -11,7 +11,10 @@ Local Open Scope string_scope.
 Inductive tree :=
 | Nd (data : string) (ch : list tree)
 | Sy (is_term : bool) (name : string)
-| Tk (v : string).
+| Tk (v : string)
+| Ptr (o : nat).     (* a shared tree OBJECT of the builder's heap (the tree of a terminal definition):
+                        resolve_term_references puts the referenced terminal's tree object itself into the
+                        referring tree, so a later in-place change of that object (%extend) is seen there *)
 
 Fixpoint tree_eqb (a b : tree) {struct a} : bool :=
   match a, b with
@@ -25,6 +28,7 @@ Fixpoint tree_eqb (a b : tree) {struct a} : bool :=
          end) ch ch'
   | Sy t n, Sy t' n' => Bool.eqb t t' && String.eqb n n'
   | Tk v, Tk v' => String.eqb v v'
+  | Ptr o, Ptr o' => Nat.eqb o o'
   | _, _ => false
   end.
 
@@ -34,6 +38,7 @@ Fixpoint rename_tree (f : string -> string) (t : tree) : tree :=
   | Nd d ch => Nd d (map (rename_tree f) ch)
   | Sy b n => Sy b (f n)
   | Tk v => Tk v
+  | Ptr o => Ptr o
   end.
 
 (* names of all Symbol leaves (scan_values) *)
@@ -42,6 +47,7 @@ Fixpoint syms (t : tree) : list string :=
   | Nd _ ch => flat_map syms ch
   | Sy _ n => [n]
   | Tk _ => []
+  | Ptr _ => []
   end.
 
 (* _find_used_symbols: Symbol leaves below some 'expansion' node (as a list; the code takes a set) *)
@@ -153,8 +159,34 @@ Definition bind {A B} (r : result A) (f : A -> result B) : result B :=
   match r with Ok a => f a | Err e => Err e end.
 Notation "x <- r ;; k" := (bind r (fun x => k)) (at level 61, r at next level, right associativity).
 
-Record builder := mkB { b_defs : list defn; b_ignore : list string }.
-Definition empty_builder := mkB [] [].
+(* tree objects that are shared by reference: the trees of terminal definitions *)
+Definition heap := list (nat * tree).
+
+Fixpoint hget (o : nat) (h : heap) : option tree :=
+  match h with [] => None | (k, t) :: r => if Nat.eqb o k then Some t else hget o r end.
+
+Fixpoint hset (o : nat) (t : tree) (h : heap) : heap :=
+  match h with
+  | [] => [(o, t)]
+  | (k, t') :: r => if Nat.eqb o k then (k, t) :: r else (k, t') :: hset o t r
+  end.
+
+(* the tree of a terminal definition is `Ptr o` with the content in b_heap; rule trees are held directly
+   (they are never shared); b_next is the next unused object id *)
+Record builder := mkB { b_defs : list defn; b_ignore : list string; b_heap : heap; b_next : nat }.
+Definition fresh_builder (next : nat) := mkB [] [] [] next.
+Definition empty_builder := fresh_builder 0.
+
+(* Definition(is_term=True, tree, ...): the tree is a new object *)
+Definition alloc (d : defn) (b : builder) : defn * builder :=
+  match d_term d, d_tree d with
+  | true, Some t =>
+      (mkDef (d_name d) true (Some (Ptr (b_next b))) (d_params d) (d_opts d),
+       mkB (b_defs b) (b_ignore b) ((b_next b, t) :: b_heap b) (S (b_next b)))
+  | _, _ => (d, b)
+  end.
+
+Definition with_defs (l : list defn) (b : builder) : builder := mkB l (b_ignore b) (b_heap b) (b_next b).
 
 Fixpoint find_def (name : string) (l : list defn) : option defn :=
   match l with [] => None | d :: r => if String.eqb name (d_name d) then Some d else find_def name r end.
@@ -216,10 +248,12 @@ Definition extend (d : defn) (l : list defn) : result (list defn) :=
 (* _ignore (only called at top level) *)
 Definition ignore (t : tree) (b : builder) : builder :=
   match t with
-  | Nd "expansions" [Nd "expansion" [Nd "value" [Sy true n]]] => mkB (b_defs b) (b_ignore b ++ [n])%list
+  | Nd "expansions" [Nd "expansion" [Nd "value" [Sy true n]]] =>
+      mkB (b_defs b) (b_ignore b ++ [n])%list (b_heap b) (b_next b)
   | _ =>
       let name := "__IGNORE_" ++ nat_str (List.length (b_ignore b)) in
-      mkB (set_def (mkDef name true (Some t) [] (OTerm 0)) (b_defs b)) (b_ignore b ++ [name])%list
+      let '(d, b1) := alloc (mkDef name true (Some t) [] (OTerm 0)) b in
+      mkB (set_def d (b_defs b1)) (b_ignore b1 ++ [name])%list (b_heap b1) (b_next b1)
   end.
 
 (* _unpack_definition: mangle name, params and every symbol of the body; under a mangle the
@@ -268,7 +302,7 @@ Definition remove_unused (l : list defn) (used : list string) : result (list def
   if closed_under l v then Ok (filter (fun d => mem (d_name d) v) l) else Err EFuel.
 
 (* ------------------------------------------------------------------ resolve_term_references *)
-(* one pass with copying semantics: value[Terminal X] -> value[tree of X] *)
+(* value[Terminal X] -> value[the tree object of X]; terms: the terminal definitions (tree = Ptr o) *)
 Fixpoint resolve_pass (terms : list defn) (t : tree) : result tree :=
   match t with
   | Nd d ch =>
@@ -291,40 +325,74 @@ Fixpoint resolve_pass (terms : list defn) (t : tree) : result tree :=
   | t => Ok t
   end.
 
-Fixpoint has_term_ref (t : tree) : bool :=
-  match t with
-  | Nd d ch =>
-      (if String.eqb d "value" then match ch with [Sy _ _] => true | _ => false end else false)
-      || existsb has_term_ref ch
-  | _ => false
-  end.
-
 Fixpoint map_result {A B} (f : A -> result B) (l : list A) : result (list B) :=
   match l with
   | [] => Ok []
   | x :: r => x' <- f x ;; r' <- map_result f r ;; Ok (x' :: r')
   end.
 
-Definition resolve_round (l : list defn) : result (list defn) :=
-  let terms := filter d_term l in
-  map_result (fun d =>
-    if d_term d then
-      match d_tree d with
-      | None => Ok d
-      | Some t => t' <- resolve_pass terms t ;; Ok (mkDef (d_name d) true (Some t') (d_params d) (d_opts d))
+Definition memn (x : nat) (l : list nat) : bool := existsb (Nat.eqb x) l.
+
+Fixpoint ptrs (t : tree) : list nat :=
+  match t with
+  | Nd _ ch => flat_map ptrs ch
+  | Ptr o => [o]
+  | _ => []
+  end.
+
+Definition term_objs (l : list defn) : list nat :=
+  flat_map (fun d => match d_term d, d_tree d with true, Some (Ptr o) => [o] | _, _ => [] end) l.
+
+(* the objects reachable from v through the heap *)
+Fixpoint reach_objs (fuel : nat) (h : heap) (v : list nat) : list nat :=
+  match fuel with
+  | O => v
+  | S f =>
+      let new := filter (fun o => negb (memn o v))
+                        (flat_map (fun o => match hget o h with Some t => ptrs t | None => [] end) v) in
+      match new with
+      | [] => v
+      | _ => reach_objs f h (v ++ nodup Nat.eq_dec new)%list
       end
-    else Ok d) l.
+  end.
 
-Definition needs_resolve (l : list defn) : bool :=
-  existsb (fun d => d_term d && match d_tree d with Some t => has_term_ref t | None => false end) l.
+(* a terminal whose own tree object occurs below one of its children *)
+Definition cyclic (h : heap) (o : nat) : bool :=
+  match hget o h with
+  | Some t => memn o (reach_objs (S (List.length h)) h (ptrs t))
+  | None => false
+  end.
 
-Fixpoint resolve_terms (fuel : nat) (l : list defn) : result (list defn) :=
-  if needs_resolve l then
-    match fuel with
-    | O => Err ETermRecursion
-    | S f => l' <- resolve_round l ;; resolve_terms f l'
-    end
-  else Ok l.
+(* resolve_term_references over the term definitions of the builder: every tree object reachable from
+   a terminal definition gets its terminal references replaced by the referenced OBJECT (a pointer),
+   so one pass is enough; then the recursion check *)
+Definition resolve_heap (l : list defn) (h : heap) : result heap :=
+  let terms := filter d_term l in
+  let live := reach_objs (S (List.length h)) h (term_objs l) in
+  h' <- map_result (fun ot => if memn (fst ot) live
+                               then t' <- resolve_pass terms (snd ot) ;; Ok (fst ot, t')
+                               else Ok ot) h ;;
+  if existsb (cyclic h') (term_objs l) then Err ETermRecursion else Ok h'.
+
+(* a tree with every pointer replaced by the current content of the object (what one sees when the
+   tree is traversed) *)
+Fixpoint deref (fuel : nat) (h : heap) : tree -> tree :=
+  fix go (t : tree) : tree :=
+    match t with
+    | Nd d ch => Nd d (map go ch)
+    | Ptr o => match fuel with
+               | O => Ptr o
+               | S f => match hget o h with Some t' => deref f h t' | None => Ptr o end
+               end
+    | t => t
+    end.
+
+Definition view (b : builder) (d : defn) : defn :=
+  mkDef (d_name d) (d_term d) (option_map (deref (S (List.length (b_heap b))) (b_heap b)) (d_tree d))
+        (d_params d) (d_opts d).
+
+(* the definitions as an observer of GrammarBuilder._definitions sees them *)
+Definition export (b : builder) : list defn := map (view b) (b_defs b).
 
 (* ------------------------------------------------------------------ load_grammar / do_import *)
 Definition module_files := list (list string * list stmt).
@@ -343,35 +411,57 @@ Fixpoint add_import (p : list string) (al : list (string * string))
 Definition collect_imports (ss : list stmt) :=
   fold_left (fun acc s => match s with SImport p al => add_import p al acc | _ => acc end) ss [].
 
+Definition define_stmt (gkeep override : bool) (d : defn) (b : builder) : result builder :=
+  let '(d', b1) := alloc d b in
+  l <- define gkeep override d' (b_defs b1) ;; Ok (with_defs l b1).
+
+(* _extend: for a rule the definition's tree gets the alternative; for a terminal the tree OBJECT is
+   changed in place (base.children.insert(0, exp)) - every tree that holds the object sees it *)
+Definition extend_stmt (d : defn) (b : builder) : result builder :=
+  l <- extend d (b_defs b) ;;
+  match find_def (d_name d) (b_defs b), d_tree d with
+  | Some old, Some exp =>
+      match d_tree old with
+      | Some (Ptr o) =>
+          match hget o (b_heap b) with
+          | Some base => Ok (mkB l (b_ignore b) (hset o (add_alternative exp base) (b_heap b)) (b_next b))
+          | None => Err EFuel
+          end
+      | _ => Ok (with_defs l b)
+      end
+  | _, _ => Ok (with_defs l b)
+  end.
+
 Definition apply_stmt (gkeep : bool) (ls : list layer) (s : stmt) (b : builder) : result builder :=
   match s with
-  | SDef KDefine d => l <- define gkeep false (mangle_def ls d) (b_defs b) ;; Ok (mkB l (b_ignore b))
-  | SDef KOverride d => l <- define gkeep true (mangle_def ls d) (b_defs b) ;; Ok (mkB l (b_ignore b))
-  | SDef KExtend d => l <- extend (mangle_def ls d) (b_defs b) ;; Ok (mkB l (b_ignore b))
+  | SDef KDefine d => define_stmt gkeep false (mangle_def ls d) b
+  | SDef KOverride d => define_stmt gkeep true (mangle_def ls d) b
+  | SDef KExtend d => extend_stmt (mangle_def ls d) b
   | SIgnore t => match ls with [] => Ok (ignore t b) | _ => Ok b end
   | SDeclare sy =>
       fold_left (fun acc bs =>
                    b' <- acc ;;
                    if negb (fst bs) then Err EDeclareRule
                    else l <- define gkeep false (mkDef (mangle ls (snd bs)) true None [] (OTerm 1)) (b_defs b') ;;
-                        Ok (mkB l (b_ignore b'))) sy (Ok b)
+                        Ok (with_defs l b')) sy (Ok b)
   | SImport _ _ => Ok b
   end.
 
 Definition clashes (a b : list defn) : bool := existsb (fun d => defined (d_name d) b) a.
 
 (* do_import, given the function that loads a module text under a mangle into a fresh builder
-   (gb = GrammarBuilder(...); gb.load_grammar(text, joined_path, mangle)) *)
-Definition do_import (loader : list layer -> list stmt -> result builder) (fs : module_files)
+   (gb = GrammarBuilder(...); gb.load_grammar(text, joined_path, mangle)); the first argument of the
+   loader is the first unused object id.  The definitions move over with their tree objects. *)
+Definition do_import (loader : nat -> list layer -> list stmt -> result builder) (fs : module_files)
            (ls : list layer) (b : builder) (imp : list string * list (string * string)) : result builder :=
   let ls' := (join "__" (fst imp), snd imp) :: ls in
   match lookup_module (fst imp) fs with
   | None => Err ENoModule
   | Some ms =>
-      gb <- loader ls' ms ;;
+      gb <- loader (b_next b) ls' ms ;;
       kept <- remove_unused (b_defs gb) (map (mangle ls') (map fst (snd imp))) ;;
       if clashes kept (b_defs b) then Err EClash
-      else Ok (mkB (b_defs b ++ kept)%list (b_ignore b))
+      else Ok (mkB (b_defs b ++ kept)%list (b_ignore b) (b_heap b ++ b_heap gb)%list (b_next gb))
   end.
 
 Definition apply_stmts (gkeep : bool) (ls : list layer) (ss : list stmt) (b : builder) : result builder :=
@@ -385,11 +475,11 @@ Fixpoint load (fuel : nat) (fs : module_files) (gkeep : bool) (ls : list layer) 
   | S f =>
       b1 <- fold_left
               (fun acc imp => b' <- acc ;;
-                              do_import (fun ls' ms => load f fs gkeep ls' ms empty_builder) fs ls b' imp)
+                              do_import (fun next ls' ms => load f fs gkeep ls' ms (fresh_builder next)) fs ls b' imp)
               (collect_imports ss) (Ok b) ;;
       b2 <- apply_stmts gkeep ls ss b1 ;;
-      l <- resolve_terms (S (List.length (b_defs b2))) (b_defs b2) ;;
-      Ok (mkB l (b_ignore b2))
+      h <- resolve_heap (b_defs b2) (b_heap b2) ;;
+      Ok (mkB (b_defs b2) (b_ignore b2) h (b_next b2))
   end.
 
 (* ------------------------------------------------------------------ validate *)
@@ -420,7 +510,7 @@ Definition validate_def (l : list defn) (d : defn) : result unit :=
        end.
 
 Definition validate (b : builder) : result unit :=
-  _ <- fold_left (fun acc d => _ <- acc ;; validate_def (b_defs b) d) (b_defs b) (Ok tt) ;;
+  _ <- fold_left (fun acc d => _ <- acc ;; validate_def (export b) d) (export b) (Ok tt) ;;
   if forallb (fun n => defined n (b_defs b)) (b_ignore b) then Ok tt else Err EIgnoreUndefined.
 
 (* load_grammar(...) followed by build()'s validate *)
